@@ -9,6 +9,7 @@ target directory + os.replace and removes the temp file on every exceptional pat
 contains the cache version and the interpreter version; the memcached back end honours
 ignore_memcache_errors on both paths; BaseLoader.load stores a bucket only when it was empty.
 Also: the cache key always contains the template name; an entry written in place is a violation.  
+Also: the bucket key has a def-use path from name and filename; no glob / fnmatch pattern is built from the cache directory.  
 Not decided: crash points of the file system itself, histories.
 """
 
